@@ -61,3 +61,51 @@ Proof.
     change (sq NN (p_radius NN st * nofZ 2)) with (sq NN (p_radius NN st * n2)).
     destruct (norm2 NN (x1 - x2) (y1 - y2) <=? sq NN (p_radius NN st * n2)); reflexivity.
 Qed.
+
+(* ------------------------------------------------------------------ *)
+(* PotentialState::score as a whole                                    *)
+
+Lemma fold_left_ext_in {A B} (f g : B -> A -> B) (l : list A) (b : B) :
+  (forall acc x, In x l -> f acc x = g acc x) -> fold_left f l b = fold_left g l b.
+Proof.
+  revert b. induction l as [|x l IH]; intros b H; [reflexivity|]. cbn [fold_left].
+  rewrite (H b x (or_introl eq_refl)). apply IH. intros acc y Hy. apply H. now right.
+Qed.
+
+Lemma fold_left_map {A B C} (f : C -> B -> C) (g : A -> B) (l : list A) (c : C) :
+  fold_left f (map g l) c = fold_left (fun acc x => f acc (g x)) l c.
+Proof. revert c. induction l as [|x l IH]; intros c; [reflexivity|]. cbn [map fold_left]. apply IH. Qed.
+
+(* the accumulating double loop over enumerate / skip adds the terms of the model's loop over tails, in the same order *)
+Lemma sum_enumerate_skip {A} (NN : Num) (f : A -> A -> carrier NN) (pre suf : list A) (acc : carrier NN) :
+  fold_left (fun sum '(i, x) => fold_left (fun sum y => sum + f x y) (skipn (S i) (pre ++ suf)) sum)
+            (enumerate_from (length pre) suf) acc
+  = fold_left (fun acc0 xr => fold_left (fun acc2 y => acc2 + f (fst xr) y) (snd xr) acc0) (tails suf) acc.
+Proof.
+  revert pre acc. induction suf as [|x suf IH]; intros pre acc; [reflexivity|].
+  cbn [enumerate_from fold_left tails fst snd].
+  assert (E : skipn (S (length pre)) (pre ++ x :: suf) = suf).
+  { replace (S (length pre)) with (length (pre ++ [x])) by (rewrite app_length; cbn; lia).
+    replace (pre ++ x :: suf) with ((pre ++ [x]) ++ suf) by (rewrite <- app_assoc; reflexivity).
+    rewrite skipn_app, skipn_all, Nat.sub_diag. reflexivity. }
+  rewrite E.
+  specialize (IH (pre ++ [x])). rewrite app_length in IH. cbn [length] in IH.
+  replace (length pre + 1)%nat with (S (length pre)) in IH by lia.
+  replace ((pre ++ [x]) ++ suf) with (pre ++ x :: suf) in IH by (rewrite <- app_assoc; reflexivity).
+  apply IH.
+Qed.
+
+Theorem lj_score_is_source : forall (NN : Num) (powi : carrier NN -> Z -> carrier NN) (st : ljstate NN),
+  gen_lj_score NN powi st = lj_score NN powi st.
+Proof.
+  intros NN powi st. unfold gen_lj_score, lj_score. cbv zeta. f_equal. f_equal. f_equal.
+  unfold lj_sum. cbv zeta.
+  set (shapes := map (fun p => map (lj_transform NN p) (l_shape NN st)) (lj_cartesian NN st)).
+  change (map (fun p => (fun t => map (lj_transform NN t) (l_shape NN st)) p) (lj_cartesian NN st)) with shapes.
+  unfold enumerate.
+  pose proof (sum_enumerate_skip NN (ljshape_energy NN powi) [] shapes n0) as H. cbn [app length] in H.
+  unfold ljshape in *. rewrite H. clear H.
+  apply fold_left_ext_in. intros acc shape1 _.
+  apply fold_left_ext_in. intros acc2 pos _.
+  rewrite fold_left_map. reflexivity.
+Qed.
